@@ -231,6 +231,16 @@ def button_guards():
         out.append((kind, exists, int(gm), int(ga or 0), int(gb), int(i1), int(a1)))
     return out
 
+def register_unknown_buffer():
+    """(alloc, bound) of the default branch of supla_esp_on_register_result: buff = os_malloc(alloc); ets_snprintf(buff, bound, …)"""
+    txt = _preprocess(os.path.join(G.REPO, 'src', 'user', 'supla_esp_devconn.c'))
+    b = _norm(_function_body(txt, 'supla_esp_on_register_result'))
+    ms = re.findall(r'default: buff = malloc\((\d+)\); ets_snprintf\(buff, (\d+), "Unknown code %i", register_device_result->result_code\); '
+                    r'supla_esp_set_state\(\d+, buff\); free\(buff\);', b)
+    if len(ms) != 1 or b.count('ets_snprintf(') != 1 or b.count('buff = malloc(') != 1:
+        raise TranslatorError('supla_esp_on_register_result: default branch (malloc + ets_snprintf) not recognised')
+    return int(ms[0][0]), int(ms[0][1])
+
 def _build_table():
     rules = srpc_rules()
     L = []
@@ -250,6 +260,7 @@ def _build_table():
                 a += ['offsetof(%s, %s)' % (T, f), 'sizeof(((%s *)0)->%s)' % (T, f), '((__typeof__(((%s *)0)->%s))-1) < 0' % (T, f)]
                 fmt += ' %lld %lld %lld'
             row(fmt, *a)
+    ra, rb = register_unknown_buffer()
     for f, k in config_funcs():
         L.append('  fprintf(stdout, "L CONFIG_FUNCS %d %d\\n");\n' % (f, k))
     for row in button_guards():
@@ -260,7 +271,8 @@ def _build_table():
     return dict(pre='#include <stddef.h>\n#include <stdlib.h>\n#include "proto.h"\n#include "srpc.h"\n',
                 ints=[('SRPC_MAX_DATA_SIZE', 'SUPLA_MAX_DATA_SIZE'),
                       ('SRPC_RESULT_TRUE', 'SUPLA_RESULT_TRUE'), ('SRPC_RESULT_FALSE', 'SUPLA_RESULT_FALSE'),
-                      ('SRPC_RESULT_DATA_ERROR', 'SUPLA_RESULT_DATA_ERROR')],
+                      ('SRPC_RESULT_DATA_ERROR', 'SUPLA_RESULT_DATA_ERROR'),
+                      ('REG_UNKNOWN_ALLOC', str(ra)), ('REG_UNKNOWN_BOUND', str(rb))],
                 body=''.join(L), extra_names=['SRPC_ROWS', 'DISPATCH_DEV', 'DISPATCH_DEVCFG', 'CONFIG_FUNCS', 'BUTTON_GUARDS'])
 
 class _Lazy(dict):
